@@ -133,12 +133,14 @@ def split_rewrite(d):
     return d.arg.split()[0], a.strip('\n'), b.strip('\n')
 
 
-def load_contracts(cdir):
+def load_contracts(cdir, only=None):
     """-> dict file -> {'top':[], 'bottom':[(text,props)], 'filerewrites':[], 'wraps':[], 'befores':[], 'units':[]}"""
     out = {}
     for root, _, names in os.walk(cdir):
         for n in sorted(names):
             if not n.endswith('.vc'):
+                continue
+            if only is not None and n[:-3] not in only:
                 continue
             for file, ds in parse_sidecar(os.path.join(root, n)):
                 fc = out.setdefault(file, {'top': [], 'bottom': [], 'filerewrites': [], 'wraps': [], 'befores': [],
@@ -466,9 +468,10 @@ def unit_ranges(text):
     return res
 
 
-def annotate_tree(repo_src, contracts_dir, spec_dir, out_src):
-    """repo_src: /repo/src (read only). out_src: scratch/src (already a copy of repo_src)."""
-    contracts = load_contracts(contracts_dir)
+def annotate_tree(repo_src, contracts_dir, spec_dir, out_src, only=None, specs=None):
+    """repo_src: /repo/src (read only). out_src: scratch/src (already a copy of repo_src).
+    only: restrict sidecars to these basenames (development); specs: restrict spec modules likewise."""
+    contracts = load_contracts(contracts_dir, only)
     index = {'units': [], 'bottoms': [], 'lost': [], 'filerewrites': [], 'wraps': []}
     uid = 0
     for rel, fc in sorted(contracts.items()):
@@ -507,6 +510,8 @@ def annotate_tree(repo_src, contracts_dir, spec_dir, out_src):
     mods = []
     for n in sorted(os.listdir(spec_dir)):
         if n.endswith('.rs'):
+            if specs is not None and n[:-3] not in specs:
+                continue
             with open(os.path.join(spec_dir, n)) as f:
                 t = f.read()
             with open(os.path.join(out_src, n), 'w') as f:
